@@ -1123,6 +1123,9 @@ func c17Instances(add func(*Instance), thorough bool) {
 		ad(with(P("anb", 1, "ane", 2, "akeys", 4, "alow", 7, "alowb", 0, "xh", 0, "xb", 4294967280, "xm", 63), "op", op, "sh", 0, "sb", 4294967290, "sm", 7, "len", ln), 0)
 		ad(with(P("anb", 2, "ane", 1, "akeys", 6, "alow", 7, "alowb", 4294967288, "xh", 0, "xb", 4294967280, "xm", 63), "op", op, "sh", 0, "sb", 4294967290, "sm", 7, "len", ln), 1)
 	}
+	// static Flip across two absent buckets (each becomes 65536 full chunks: large step budget, concrete work)
+	add(&Instance{Pkg: "roaring64", Func: "VerifC17Op", MaxSteps: 600_000_000, Params: P("op", 16, "anb", 1, "ane", 1, "akeys", 4, "alow", 7, "alowb", 0,
+		"xh", 0, "xb", 0, "xm", 12884901903, "sh", 0, "sb", 4294967290, "sm", 1, "len", 1, "eh", 3)})
 	ad(with(top, "op", 17, "bnb", 1), 0)
 	ad(with(P("anb", 2, "ane", 2, "akeys", 4, "alow", 7, "alowb", 0, "bnb", 1, "bne", 2, "bkeys", 4, "blow", 7, "blowb", 0, "xh", 0, "xb", 0, "xm", 0x10000000F), "op", 17), 0)
 	ad(with(free, "op", 18), 0)
